@@ -37,6 +37,9 @@ def prepare(i):
     return clone
 
 
+FAST = False
+
+
 def worker(i, ids, tier):
     clone = prepare(i)
     env = dict(os.environ, SEEDWT_DIR="/var/tmp/seedwt%d" % i)
@@ -45,7 +48,11 @@ def worker(i, ids, tier):
     for sid in ids:
         t0 = time.time()
         d = os.path.join(clone, "seeded", sid)
-        rc, out = sh("python3 tools/seedtest.py %s --skip-suite --tier %s" % (d, tier), cwd=clone, env=env)
+        if os.path.exists(os.path.join(d, "result.json")):
+            os.remove(os.path.join(d, "result.json"))
+        rc, out = sh("python3 tools/seedtest.py %s --skip-suite %s--tier %s" % (d, "--no-demo " if FAST else "", tier), cwd=clone, env=env)
+        if not os.path.exists(os.path.join(d, "result.json")):      # transient failure (worktree lock, cargo lock): once more
+            rc, out = sh("python3 tools/seedtest.py %s --skip-suite %s--tier %s" % (d, "--no-demo " if FAST else "", tier), cwd=clone, env=env)
         try:
             r = json.load(open(os.path.join(d, "result.json")))
         except Exception as e:
@@ -68,7 +75,10 @@ def main():
     ap.add_argument("--only", default=".")
     ap.add_argument("--tier", default="quick")
     ap.add_argument("--out", default=os.path.join(ROOT, "seeded", "SWEEP.json"))
+    ap.add_argument("--fast", action="store_true", help="do not re-run the demonstrations")
     a = ap.parse_args()
+    global FAST
+    FAST = a.fast
     ids = sorted(d for d in os.listdir(os.path.join(ROOT, "seeded"))
                  if os.path.isdir(os.path.join(ROOT, "seeded", d)) and re.search(a.only, d))
     parts = [ids[i::a.workers] for i in range(a.workers)]
